@@ -708,8 +708,99 @@ func perms(xs []int) [][]int {
 	return out
 }
 
+// c03QueueFile: n reads wait inside the implementation for data; n writes follow, each
+// of which lets one read go (a queue file, a pipe). Every one of the 2n requests gets
+// exactly one reply, its own - however many are outstanding.
+func c03QueueFile(n int, maxpend int, dotu bool) Scenario {
+	name := fmt.Sprintf("queue-file %d reads waiting for %d writes maxpend=%d dotu=%v", n, n, maxpend, dotu)
+	return Scenario{Name: name, Run: func(rc *RunCtx) *Result {
+		res := &Result{Exhaustive: true}
+		var fail string
+		body := func() {
+			s := newSess(SrvOpt{Msize: 256, Dotu: dotu, Maxpend: maxpend})
+			s.rpcOK(twalk(s.tag(), 0, 1, "f"), wire.Rwalk)
+			s.rpcOK(&wire.Msg{Type: wire.Topen, Tag: s.tag(), Fid: 1, Mode: 0}, wire.Ropen)
+			s.rpcOK(twalk(s.tag(), 0, 2, "g"), wire.Rwalk)
+			s.rpcOK(&wire.Msg{Type: wire.Topen, Tag: s.tag(), Fid: 2, Mode: 1}, wire.Ropen)
+			n0 := len(s.c.Collect())
+			want := map[uint16]string{}
+			for i := 0; i < n; i++ {
+				g := vs.NewSem(0)
+				rt, wt := uint16(1000+i), uint16(20000+i)
+				s.fs.Script[reqKey{0, rt, 0}] = &Action{Gate: g}
+				s.fs.Script[reqKey{0, wt, 0}] = &Action{Release: g}
+			}
+			for i := 0; i < n; i++ {
+				s.c.Send(dotu, &wire.Msg{Type: wire.Tread, Tag: uint16(1000 + i), Fid: 1, Offset: uint64(i), Count: 8})
+				want[uint16(1000+i)] = "Rread"
+			}
+			vs.Idle()
+			for i := 0; i < n; i++ {
+				s.c.Send(dotu, &wire.Msg{Type: wire.Twrite, Tag: uint16(20000 + i), Fid: 2, Offset: uint64(i), Data: []byte{byte(i)}})
+				want[uint16(20000+i)] = "Rwrite"
+			}
+			vs.Idle()
+			got := map[uint16]int{}
+			for _, f := range s.c.Collect()[n0:] {
+				if f.Msg == nil {
+					fail = "a reply does not parse: " + f.Err
+					return
+				}
+				got[f.Msg.Tag]++
+				if w, ok := want[f.Msg.Tag]; !ok || wire.Names[f.Msg.Type] != w {
+					fail = fmt.Sprintf("reply %s for a request answered as %q", f.Msg, w)
+					return
+				}
+				if f.Msg.Type == wire.Rread {
+					ok := false
+					for _, r := range s.fs.resps(0, f.Msg.Tag, 0) {
+						if r.Reply == renderReply(f.Msg) {
+							ok = true
+						}
+					}
+					if !ok {
+						fail = fmt.Sprintf("the reply under tag %d is not what the implementation produced for that request: %s", f.Msg.Tag, renderReply(f.Msg))
+						return
+					}
+				}
+			}
+			missing := 0
+			first := uint16(0)
+			for t := range want {
+				if got[t] != 1 {
+					if missing == 0 || t < first {
+						first = t
+					}
+					missing++
+				}
+			}
+			if missing > 0 {
+				fail = fmt.Sprintf("%d of the %d requests did not get exactly one reply (e.g. tag %d: %d replies) with %d reads waiting in the implementation", missing, 2*n, first, got[first], n)
+			}
+		}
+		x := vs.Run(nil, body, vs.Options{Horizon: 500000000})
+		res.Evals++
+		res.Nontrivial++
+		res.States++
+		res.Traces++
+		if len(x.Panics) > 0 {
+			fail = "panic: " + x.Panics[0].Value
+		} else if len(x.Fails) > 0 && fail == "" {
+			fail = "harness: " + x.Fails[0]
+		}
+		if fail != "" {
+			res.Findings = append(res.Findings, Finding{Sig: "C03/queue-file/" + sigWords(fail), Msg: name + ": " + fail, Detail: map[string]any{"parked": fmt.Sprint(x.Parked)}})
+		}
+		return res
+	}}
+}
+
 func c03Scenarios(tier string) []Scenario {
 	var out []Scenario
+	out = append(out, c03QueueFile(5, 0, false), c03QueueFile(64, 2, true), c03QueueFile(300, 0, true), c03QueueFile(1000, 1, false))
+	if tier == "thorough" {
+		out = append(out, c03QueueFile(5000, 0, false))
+	}
 	for i, pr := range [][2]uint32{{64, 1024}, {128, 8216}, {1024, 64}, {256, 256}} {
 		out = append(out, c03Renegotiate(pr[0], pr[1], i%2 == 0))
 	}
